@@ -279,8 +279,9 @@ Definition counts_ok (s : image_spec) : bool :=
    || ((0 <? n) && (0 <? e_shoff e) && (n <? SHN_LORESERVE) && (e_shnum e =? n))
    || ((0 <? n) && (0 <? e_shoff e) && (e_shnum e =? 0) && (sh_size (sec0 s) =? n)) )
   &&
-  (   ((m <? PN_XNUM) && (e_phnum e =? m))
-   || ((e_phnum e =? PN_XNUM) && (0 <? n) && (sh_info (sec0 s) =? m)) )
+  (   ((m =? 0) && (e_phoff e =? 0))                  (* no program header table: e_phoff = 0 *)
+   || ((0 <? e_phoff e) && (m <? PN_XNUM) && (e_phnum e =? m))
+   || ((0 <? e_phoff e) && (e_phnum e =? PN_XNUM) && (0 <? n) && (sh_info (sec0 s) =? m)) )
   &&
   ( if n =? 0 then (e_shstrndx e =? 0) && (k =? 0)
     else (0 <=? k) && (k <? n) &&
